@@ -33,7 +33,7 @@ PROBES = {'C17': 20}
 MIN_EVAL = {'quick': 5000, 'thorough': 20000}
 REQUIRED_COUNTERS = ['roles', 'trees', 'defined-ending-in-of', 'normalised']
 EXTRA_BASES = [':foo', ':ARG0', ':', ':a-b', ':TOP', ':instance', ':op', ':ARG10', ':x', ':consist-of',
-               ':prep-on-behalf-of', ':prep-out-of', ':mod', ':domain', ':été']
+               ':prep-on-behalf-of', ':prep-out-of', ':mod', ':domain', ':\u00e9t\u00e9']
 
 
 def cases(ctx):
